@@ -27,6 +27,37 @@ HARMLESS = {
     "H04_reformat_sensor_table_row": ("dt.py", [(
         '        Voltage("vpv1", 30103, "PV1 Voltage", Kind.PV),\n',
         '        Voltage("vpv1",\n                30103,\n                "PV1 Voltage", Kind.PV),\n')], ("C12", "C13")),
+    # correct counterparts of seeded changes: the same refactorings done right must stay green
+    "H05_bitmap_loop_as_while_with_temporary": ("sensor.py", [(
+        "    for i in range(32):\n        if bits & 0x1 == 1:\n            if bitmap.get(i, f'err{i}'):\n"
+        "                result.append(bitmap.get(i, f'err{i}'))\n        bits = bits >> 1\n",
+        "    i = 0\n    while i < 32:\n        if bits & 0x1 == 1:\n            label = bitmap.get(i, f'err{i}')\n"
+        "            if label:\n                result.append(label)\n        bits = bits >> 1\n        i += 1\n")],
+        ("C13", "C11")),
+    "H06_failure_reason_helper_with_default": ("modbus.py", [
+        ("def _create_crc16_table() -> tuple:",
+         "def _failure_reason(code: int) -> str:\n    return FAILURE_CODES.get(code, \"UNKNOWN\")\n\n\n"
+         "def _create_crc16_table() -> tuple:"),
+        ('        failure_code = FAILURE_CODES.get(data[4], "UNKNOWN")\n', '        failure_code = _failure_reason(data[4])\n'),
+        ('        failure_code = FAILURE_CODES.get(data[8], "UNKNOWN")\n', '        failure_code = _failure_reason(data[8])\n')],
+        ("C01", "C08")),
+    "H07_es_switches_written_in_a_loop": ("es.py", [(
+        "            await self.write_setting('eco_mode_2_switch', 0)\n            await self.write_setting('eco_mode_3_switch', 0)\n"
+        "            await self.write_setting('eco_mode_4_switch', 0)\n",
+        "            for switch_id in ('eco_mode_2_switch', 'eco_mode_3_switch', 'eco_mode_4_switch'):\n"
+        "                await self.write_setting(switch_id, 0)\n")], ("C19",)),
+    "H08_get_sensor_through_a_local": ("et.py", [(
+        "        self._sensors_map = {s.id_: s for s in self.sensors()}\n        return self._sensors_map.get(sensor_id)\n",
+        "        lookup = {s.id_: s for s in self.sensors()}\n        self._sensors_map = lookup\n"
+        "        return lookup.get(sensor_id)\n")], ("C16",)),
+    "H09_timer_armed_through_a_helper": ("protocol.py", [
+        ("    def _max_retries_reached(self) -> Future:",
+         "    def _arm_timeout(self) -> None:\n        self._timer = asyncio.get_running_loop().call_later(self.timeout, "
+         "self._timeout_mechanism)\n\n    def _max_retries_reached(self) -> Future:"),
+        ("        self._transport.sendto(payload)\n        if self._timer:\n            self._timer.cancel()\n"
+         "        self._timer = asyncio.get_running_loop().call_later(self.timeout, self._timeout_mechanism)\n",
+         "        self._transport.sendto(payload)\n        if self._timer:\n            self._timer.cancel()\n"
+         "        self._arm_timeout()\n")], ("C04", "C05", "C06")),
 }
 
 
